@@ -1,0 +1,13 @@
+//! C25: runs the real `write_dependency_file` on a given list of loaded files. Adds no behaviour.
+
+use std::path::Path;
+use std::path::PathBuf;
+
+/// `files`: (filename, `modifiers.temporary`) in load order.
+pub fn write_dependency_file(
+    dep_file_path: &Path,
+    output_path: &Path,
+    files: &[(PathBuf, bool)],
+) -> std::io::Result<()> {
+    crate::verif_write_dependency_file(dep_file_path, output_path, files)
+}
